@@ -62,7 +62,7 @@ def run(ctx, ck):
         by_kind.setdefault(s.kind, []).append(s)
     ck.info('sites_in_closure', {k: len(v) for k, v in by_kind.items()})
     ck.floor('explicit raises in the closure of main', len(by_kind.get('raise', [])), 40)
-    ck.floor('conversions of user text in main', len(by_kind.get('convert', [])), 30)
+    ck.floor('conversions of user text in main', len(by_kind.get('convert', [])), 20)
     ck.floor('open() calls', len(by_kind.get('open', [])), 2)
     ck.floor('by_tag lookups', len(by_kind.get('lookup', [])), 5)
     esc = ea.escaping(mainf)
@@ -138,12 +138,58 @@ def run(ctx, ck):
                                      norm(h.body[0])[:50] if h.body else '')
         ck.ob('R-EXC.handler-shape', key, np_ == 1 and r23 and h.type is not None, mainf.loc(h),
               'handler prints %d diagnostic(s) and %s' % (np_, 'returns 23' if r23 else 'does NOT return 23'))
-    ck.floor('exception handlers in main', n_h, 30)
+    # handlers in the module-level helpers main delegates option parsing to: one diagnostic, then the
+    # helper reports the failure to main by its return value
+    for q_ in sorted(ea.entry_helpers()):
+        g_ = m.funcs[q_]
+        for h in [x for x in walk_no_nested(g_.node) if isinstance(x, ast.ExceptHandler)]:
+            np_, r23 = handler_outcome(h)
+            last = h.body[-1] if h.body else None
+            n_h += 1
+            key = '%s|except %s|%s' % (g_.name, norm(h.type) if h.type is not None else '<bare>',
+                                       norm(h.body[0])[:50] if h.body else '')
+            ck.ob('R-EXC.handler-shape', key, np_ == 1 and isinstance(last, ast.Return) and h.type is not None, g_.loc(h),
+                  'handler prints %d diagnostic(s) and %s' % (np_, 'returns to main' if isinstance(last, ast.Return)
+                                                                  else 'does NOT return'))
+    ck.floor('exception handlers in main', n_h, 20)
     rets = [r for r in walk_no_nested(mainf.node) if isinstance(r, ast.Return)]
+    mfl_ = ctx.flow(mainf)
+
+    def helper_result(name_node, at):
+        """the entry helper whose result the local holds (single definition `x = helper(...)`), or None"""
+        if not isinstance(name_node, ast.Name) or name_node.id not in mfl_.rd.names:
+            return None
+        ds = mfl_.def_exprs(name_node.id, at)
+        gs = set()
+        for d in ds:
+            if d[0] != 'assign' or not isinstance(d[1], ast.Call) or not isinstance(d[1].func, ast.Name):
+                return None
+            q_ = '%s.%s' % (mainf.module.name, d[1].func.id)
+            if q_ not in ea.entry_helpers():
+                return None
+            gs.add(q_)
+        return m.funcs[sorted(gs)[0]] if len(gs) == 1 else None
+
+    def helper_reports(g_):
+        """every failing return of the helper (a constant other than a normal result) follows a diagnostic print"""
+        for r_ in walk_no_nested(g_.node):
+            if isinstance(r_, ast.Return) and (r_.value is None or isinstance(r_.value, ast.Constant)):
+                if r_.value is not None and r_.value.value not in (None, 23):
+                    return False
+        return any(isinstance(c_, ast.Call) and isinstance(c_.func, ast.Name) and c_.func.id == 'print'
+                   for c_ in walk_no_nested(g_.node))
     for r in rets:
         v = r.value
         ok = v is None or (isinstance(v, ast.Constant) and v.value == 23) or \
             (isinstance(v, ast.Name) and v.id == 'm')
+        if not ok and isinstance(v, ast.Name):
+            # `rc = helper(...); if rc is not None: return rc`: the helper's own exit code
+            g_ = helper_result(v, mfl_.node_id_of(r))
+            ok = g_ is not None and helper_reports(g_) and all(
+                isinstance(x_.value, ast.Constant) and x_.value.value in (None, 23)
+                for x_ in walk_no_nested(g_.node) if isinstance(x_, ast.Return) and x_.value is not None)
+            if ok:
+                continue
         if not ok:
             ck.ob('R-EXC.handler-shape', 'main|return %s' % norm(v), False, mainf.loc(r), 'unexpected return value')
         elif isinstance(v, ast.Constant):
@@ -158,6 +204,12 @@ def run(ctx, ck):
             prev = body[i - 1] if body and i > 0 else None
             okp = isinstance(prev, ast.Expr) and isinstance(prev.value, ast.Call) and \
                 isinstance(prev.value.func, ast.Name) and prev.value.func.id == 'print'
+            if not okp and isinstance(blk, ast.If):
+                # `x = helper(...); if x is None: return 23`: the helper printed the diagnostic
+                for n_ in ast.walk(blk.test):
+                    g_ = helper_result(n_, mfl_.cfg.node_of(blk)) if isinstance(n_, ast.Name) else None
+                    if g_ is not None and helper_reports(g_):
+                        okp = True
             if not okp:
                 ck.ob('R-EXC.handler-shape', 'main|return-23-without-diagnostic|%s' % norm(blk)[:40], False,
                       mainf.loc(r), '`return 23` is not preceded by a diagnostic print')
